@@ -465,6 +465,8 @@ def run(cx, rep):
     # ---------------------------------------------------------------- C13.9
     rep.rule("C13.9", "the orders the digests are computed in are total and do not depend on the host")
     digest_order_rule(cx, rep, "C13.9")
+    # ---------------------------------------------------------------- C13.11
+    one_stream_rule(cx, rep, "C13.11")
     # ---------------------------------------------------------------- C13.10
     rep.rule("C13.10", "hash() / hash256() keep no state on the validator instances (their value depends on the hash context)")
     from rules.c16 import instance_state_rule
@@ -824,3 +826,81 @@ def digest_order_rule(cx, rep, rid):
                        "%s sorts `%s` with the default comparator, which compares string forms: values of different types with the same string form (1 and \"1\", null and \"null\") tie and keep the order the members were listed in, so the hash depends on member order" % (name, s(recv)[:50]),
                        m_.loc(x), sample={"where": name, "sorted": s(recv)[:50]})
     rep.floor(rid, "orderings (sort / localeCompare) in the digest code", n_sorts, 3)
+
+
+# ---------------------------------------------------------------------------------------------------- C13.11
+def one_stream_rule(cx, rep, rid):
+    """Back-references of recursive types are written as the OFFSET at which the referenced type's encoding started
+    (`active` maps a validator to `writer.bytesWritten`).  Offsets identify a type only inside ONE byte stream: a
+    digest context therefore pairs a writer with the table filled from that very writer.  Decided: (1) a function
+    that is handed a digest context (a parameter of the context type, i.e. code running INSIDE an encoding) creates
+    no new writer; (2) every object literal that builds a digest context takes `writer` and the offset table from
+    the same source - both fresh, or both fields of the same enclosing context.  The seeded change C13-l encoded
+    each union member with a fresh writer and the inherited table: two different recursive types whose back-edges
+    happen to start at the same offset of their member streams got one digest."""
+    fam = ts_common.Family(cx)
+    mod = fam.mod
+    rep.rule(rid, "a digest context pairs a writer with the offset table filled from that writer (no new byte stream inside an encoding)")
+    # the context type: the type alias with a field typed as the writer class of hash.ts
+    hmod = cx.ts("packages/beff-client/src/hash.ts")
+    writers = [cn for cn, c in hmod.classes.items() if any(mn.startswith("update") for mn in c.methods)]
+    ctx_types = []
+    for tn, t in mod.type_aliases.items():
+        mts = [tsast.type_str((m_.get("typeAnnotation") or {}).get("typeAnnotation")) for m_ in ((t.get("typeAnnotation") or {}).get("members") or []) if m_.get("type") == "TsPropertySignature"]
+        if any(any(w in x for w in writers) for x in mts) and any("Map<" in x for x in mts):
+            ctx_types.append(tn)
+    rep.ob(rid, "roles", bool(writers) and len(ctx_types) == 1, "could not identify the digest writer class / the digest context type (writers %s, context types %s)" % (writers, ctx_types), mod.rel,
+           sample={"writer_classes": writers, "context_type": ctx_types})
+    if not writers or len(ctx_types) != 1:
+        return
+    ctype = ctx_types[0]
+    flds = {}
+    ta = mod.type_aliases[ctype].get("typeAnnotation") or {}
+    for m in ta.get("members") or []:
+        if m.get("type") == "TsPropertySignature":
+            k = m["key"].get("value")
+            flds[k] = tsast.type_str((m.get("typeAnnotation") or {}).get("typeAnnotation"))
+    wf = [k for k, t in flds.items() if any(w in t for w in writers)]
+    tf = [k for k, t in flds.items() if "Map<" in t]
+    fns = list(mod.functions.items()) + [("%s.%s" % (cn, mn), m["function"]) for cn, c in mod.classes.items() for mn, m in c.methods.items()]
+    fns += [(vn, init) for vn, (_k, init, _d) in mod.vars.items() if init is not None and init.get("type") in ("ArrowFunctionExpression", "FunctionExpression")]
+    n_lit = 0
+    for fname, fn in fns:
+        if fn.get("body") is None:
+            continue
+        inside = False
+        for p_ in fn.get("params", []):
+            pat = p_.get("pat", p_)
+            if pat.get("type") == "Identifier" and tsast.type_str((pat.get("typeAnnotation") or {}).get("typeAnnotation")) == ctype:
+                inside = True
+        news = [n for n in walk(fn) if n["type"] == "NewExpression" and s(n["callee"]) in writers]
+        if inside:
+            rep.ob(rid, "%s/no-new-stream" % fname, not news,
+                   "%s runs inside an encoding (it is handed a %s) and creates a new %s: offsets recorded in the offset table then come from different byte streams, so a back-reference no longer identifies its target (or, with a fresh table, enclosing types are not recognised and a recursive type never terminates)" % (fname, ctype, "/".join(writers)),
+                   mod.loc(news[0]) if news else mod.loc(fn), sample={"fn": fname})
+        al = ts_common.local_aliases(fn)
+        for o in walk(fn):
+            if o["type"] != "ObjectExpression":
+                continue
+            kv = {}
+            for pr in o["properties"]:
+                if pr["type"] == "KeyValueProperty":
+                    kv[tsast.prop_key(pr["key"])] = unparen(pr["value"])
+                elif pr["type"] == "Identifier":
+                    kv[pr["value"]] = al.get(pr["value"]) and unparen(al[pr["value"]]) or pr
+            if not (wf and tf and wf[0] in kv and tf[0] in kv):
+                continue
+            n_lit += 1
+            def source(e):
+                if e.get("type") == "NewExpression":
+                    return "fresh"
+                if e.get("type") == "MemberExpression":
+                    return "of " + s(e["object"])
+                if e.get("type") == "Identifier" and e["value"] in al:
+                    return source(unparen(al[e["value"]]))
+                return s(e)
+            a_, b_ = source(kv[wf[0]]), source(kv[tf[0]])
+            rep.ob(rid, "%s/context-literal" % fname, a_ == b_,
+                   "%s builds a digest context whose writer is %s and whose offset table is %s: the table must hold offsets of that writer's own stream" % (fname, a_, b_),
+                   mod.loc(o), sample={"fn": fname, "writer": a_, "table": b_})
+    rep.floor(rid, "digest context literals", n_lit, 1)
